@@ -1,5 +1,12 @@
 """C15, C16, C18 — Ask replies, reentrant requests, dead letters (group askreentr).
 
+C16  specs/Reentrancy/Request.tla: request admission (in-flight limit, blocking counter), the three completion sources
+     that reach the requester through its mailbox (reply, timeout goroutine, Cancel from inside / outside the actor), Then
+     before / after completion, the reentrancy stash and its release, Shutdown of the requester. Sampled histories of
+     length D (TLC BFS) and TLC random walks for MaxInFlight 1 / 2 / unlimited are executed on a REAL requester actor
+     (req-replay: command handlers and one responder per request held by the harness, the real timeout goroutines parked
+     at the req.timeout.fire hook and released by the puppet scheduler). Mon_Request.tla = verdict, Trace_Request.tla =
+     conformance (handler order, continuation order / outcome, real counters, StashSize, mailbox length).
 C18  specs/DeadLetter/Drops.tla: the four drop causes (full non-blocking bounded mailbox, Unhandled(), inbound remote
      tell for a missing / stopped actor, failed outbound batch) and the dead-letter actor's counters. Every operation history
      of length D (TLC BFS, sampled) and TLC random walks are executed on a REAL actor system with remoting enabled on loopback
@@ -29,6 +36,8 @@ def run(ctx, pid):
         return run_c15(ctx)
     if pid == "C18":
         return run_c18(ctx)
+    if pid == "C16":
+        return run_c16(ctx)
     raise vlib.Infra("property %s not implemented yet in group askreentr" % pid)
 
 
@@ -292,6 +301,103 @@ def run_c18(ctx):
         if drift:
             drifts.append(drift)
         ctx.log("%s: %d executions, %d steps, %d events, %d mismatches" % (label, rs["behaviours"], rs["steps"], nl, len(mm)))
+        if mm:
+            rows = vlib.read_ndjson(trace)
+            snippet = ctx.tmp("violation.ndjson")
+            vlib.write_ndjson(snippet, cut_history(rows, mm[0][1]))
+            rp = ctx.save_replay("seed%d" % ctx.seed, snippet)
+            finish(violations=len(mm))
+            raise vlib.Violation(pid, rp, "%s: %s (trace line %d of %s; %d mismatches)" % (label, mm[0][2], mm[0][1], os.path.basename(trace), len(mm)))
+    pool.shutdown()
+    for d_ in drifts:
+        ctx.log("conformance drift (not a verdict): " + d_)
+    finish()
+
+
+# ------------------------------------------------------------------------------------------------ C16
+def run_c16(ctx):
+    pid, SPEC, quick, rng = "C16", "Reentrancy", ctx.quick, ctx.rng
+    exe = ctx.build("askreentr")
+    env = {"VERIF_SLOW": "3"}
+    pool = concurrent.futures.ThreadPoolExecutor(max_workers=3)
+    f_mc = [pool.submit(ctx.tlc_must_hold, SPEC, cfg, module="MC_Request", timeout=2400, workers=4, deadlock_check=False)
+            for cfg in (("MC_Request.cfg", "MC_Request_u.cfg") if quick else ("MC_Request.cfg", "MC_Request_u.cfg", "MC_Request_t.cfg"))]
+    f_def = {d: pool.submit(ctx.tlc, SPEC, "MC_Request_%s.cfg" % d, module="MC_Request", timeout=1200, workers=2, expect_fail=True, deadlock_check=False)
+             for d in ("NoUnblock", "NoUnstash", "CallbackTwice", "LimitOffByOne")}
+    f_exh = pool.submit(ctx.tlc, SPEC, "Gen_Request.cfg" if quick else "Gen_Request_t.cfg", module="Gen_Request", deadlock_check=False, timeout=2400, workers=2)
+    sims = {mf: pool.submit(ctx.tlc, SPEC, cfg, module="Gen_Request", simulate="num=%d" % (60 if quick else 1500), depth=24, deadlock_check=False,
+                            timeout=2400, workers=1, name="sim-%d" % mf)
+            for mf, cfg in ((1, "Sim_Request_1.cfg"), (2, "Sim_Request.cfg"), (0, "Sim_Request_u.cfg"))}
+
+    tot = collections.Counter()
+    drifts, samples, allb = [], [], []
+
+    def replay(label, behaviours, maxf):
+        bfile, trace = ctx.tmp("beh-rq%d.ndjson" % maxf), ctx.tmp("trace-rq%d.ndjson" % maxf)
+        vlib.write_ndjson(bfile, behaviours)
+        p = ctx.run([exe, "req-replay", bfile, trace, str(maxf)], timeout=3000, env=env)
+        rs = json.loads(p.stdout.strip().splitlines()[-1])
+        mm, nl = monitor(ctx, SPEC, "Mon_Request", trace, "rq%d" % maxf, pid)
+        d = conformance(ctx, SPEC, "Trace_Request_%d.cfg" % maxf, "Trace_Request", trace, "rq%d" % maxf)
+        return label, trace, rs, mm, nl, d
+
+    def stress(maxf):
+        trace = ctx.tmp("trace-rqstress%d.ndjson" % maxf)
+        p = ctx.run([exe, "req-stress", str(60 if quick else 800), str(ctx.seed * 7 + maxf), trace, str(maxf)], timeout=3000, env=env)
+        rs = json.loads(p.stdout.strip().splitlines()[-1])
+        mm, nl = monitor(ctx, SPEC, "Mon_Request", trace, "rqstress%d" % maxf, pid)
+        return "stress MaxInFlight=%d (bursts of requests, real timeouts, outside Cancel)" % maxf, trace, rs, mm, nl, None
+
+    exh = vlib.parse_sim_behaviours(f_exh.result().out)
+    if len(exh) < 5000:
+        raise vlib.Infra("behaviour generation produced too little (%d exhaustive)" % len(exh))
+    futs = [pool.submit(stress, 2), pool.submit(stress, 0)]
+    for mf, f in sims.items():
+        sim = vlib.parse_sim_behaviours(f.result().out)
+        if len(sim) < (50 if quick else 1000):
+            raise vlib.Infra("too few random walks for MaxInFlight=%d (%d)" % (mf, len(sim)))
+        beh = sim + (vlib.sample(rng, exh, 1200 if quick else len(exh)) if mf == 1 else [])
+        allb += beh
+        samples.append([[o["a"], o["op"], o["mode"], o["rq"]] for o in beh[0]])
+        futs.append(pool.submit(replay, "replay MaxInFlight=%d (%d random walks%s)" % (mf, len(sim), " + %d histories of length %d" % (len(beh) - len(sim), len(exh[0])) if mf == 1 else ""),
+                                beh, mf))
+    for f in f_mc:
+        f.result()
+    for d, f in f_def.items():
+        if not f.result().violated:
+            raise vlib.Infra("Request.tla with Defects={%s} violates nothing: the design-level invariants are vacuous" % d)
+
+    def nontrivial(b):
+        return sum(1 for o in b if o["a"] in ("Reply", "TimeoutFire", "Cancel")) >= 1 and any(o["a"] == "Finish" and o["op"] == "req" for o in b)
+
+    def finish(violations=0):
+        st, tr = ctx.states()
+        cov = {"states": st, "transitions": tr, "traces_validated_against_impl": tot["hist"], "samples": samples[:3],
+               "evaluations": tot["hist"], "distinct_nontrivial": len({json.dumps(b) for b in allb if nontrivial(b)}),
+               "rule": "executions = sampled histories of length D over {Send(plain | req(AllowAll|StashNonReentrant, timeout?, Then now|later) | "
+                       "then | cancel), Finish, Reply, TimeoutFire, Cancel, Stop} (TLC BFS) + TLC random walks of depth 16 for MaxInFlight 1, 2 "
+                       "and unlimited, each executed on a real requester actor and closed by releasing every pending timeout, handler and "
+                       "responder; non-trivial = starts a request and delivers at least one completion signal",
+               "atomic_steps_replayed": tot["steps"], "replay_drift": tot["drift"], "events_judged": tot["events"],
+               "conformance_drift": drifts, "exhaustive": False}
+        ctx.evidence("model_checking", cov,
+                     ["actor requesters and actor responders (Request); RequestName shares the code path after name resolution; RequestGrain "
+                      "and grain requesters (grain_pid.go has its own bookkeeping) are not driven",
+                      "every completion signal is an enqueue into the requester's mailbox, taken as atomic (mailbox internals: C04); the "
+                      "timeout is the real goroutine of startTimeout, parked between the fired 1 us timer and enqueueAsyncError",
+                      "Shutdown only while the requester is idle (an external Shutdown racing a running handler is C06's known finding); "
+                      "continuations of requests cancelled by the shutdown never run (cancelInFlightRequests discards them)"],
+                     violations=violations)
+
+    for fut in futs:
+        label, trace, rs, mm, nl, drift = fut.result()
+        tot["hist"] += rs["behaviours"]
+        tot["steps"] += rs["steps"]
+        tot["drift"] += rs["drift"]
+        tot["events"] += nl
+        if drift:
+            drifts.append(drift)
+        ctx.log("%s: %d executions, %d steps, drift %d, %d events, %d mismatches" % (label, rs["behaviours"], rs["steps"], rs["drift"], nl, len(mm)))
         if mm:
             rows = vlib.read_ndjson(trace)
             snippet = ctx.tmp("violation.ndjson")
